@@ -814,7 +814,10 @@ def rule_tasks_never_forgotten(ctx, r, why):
     ci = info["cls"]
     n = 0
     for m in ci.methods.values():
+        is_init = m.name in ("__init__", "__attrs_post_init__") or any((d or "").endswith(".default") for d in m.decorator_names())
         for node, attr, how in removals_from(m.node, attrs_):
+            if how == "rebinding" and is_init:
+                continue        # the table is created here
             n += 1
             r.violation(f"{m.module.relpath}::{m.qual}::forgets-{attr}", f"Scheduler.{m.name} removes entries from self.{attr} ({how}): {why}", loc(node, m.module))
     r.ok(f"{ci.module.relpath}::Scheduler::tables-only-grow", f"no method of the Scheduler removes an entry from self.{info['states']} / self.{info['tasks']} ({n} removal sites; matcher checked on a positive example)", ci.where)
